@@ -6,7 +6,7 @@ import argparse, glob, json, os, re, shutil, subprocess, sys, tempfile
 from concurrent.futures import ThreadPoolExecutor
 VERIF = os.path.dirname(os.path.dirname(os.path.abspath(__file__)))
 REPO = os.environ.get('VERIF_REPO', '/repo')
-ALL = ['C%02d' % i for i in range(1, 21) if i != 17]
+ALL = ['C%02d' % i for i in range(1, 21)]
 
 
 def one(args):
